@@ -27,6 +27,11 @@ def run(tier):
         prog = Program.load(which=('SRC',), cfg=cfgname)
         eff = PathEffects(prog)
         kernels.run_factor(chk, 'C05.kern', prog, cfgname)
+        from ..rules import r12_supernodal as _r12
+        chk.clause('C05.kern.index', 'abstract interpretation of the supernodal update kernels in a polynomial index domain: every access to the supernode block is the entry the algebra needs')
+        for _p in 'ds':
+            _r12.run(chk, 'C05.kern.index', prog, _p, cfgname)
+            _r12.run_snode(chk, 'C05.kern.index', prog, _p, cfgname)
         kernels.leading_dimension_agreement(chk, 'C05.ld', prog, [q + x for q in 'sdcz' for x in ('gstrs', 'gsrfs')] + ['sp_%sgemm' % q for q in 'sdcz'],
                                             cfgname, floor=12)
         for g in ('equil', 'scale'):
